@@ -18,8 +18,16 @@
     announced in its CFG line, the DATA payloads must decode (reference decoder) to the source file
     (when no compressor is in front), and the receiver's file must equal the source.
  5. binding self-tests: corrupted / shortened traces must be rejected."""
-import os, json, copy
+import os, json, copy, time
 import vlib
+
+_T0 = [time.time()]
+
+
+def _lap(what):
+    now = time.time()
+    vlib.log("  [c04] %-28s %.1fs" % (what, now - _T0[0]))
+    _T0[0] = now
 
 ASSUMPTIONS = [
     "the reference set a '-b -e' announcement has to protect is the 14 bytes of the trzsz protocol "
@@ -150,6 +158,7 @@ def run(tier, v):
         dead = [a for a in ACTIONS if not ac.get(a) or ac[a][1] == 0]
         if dead:
             raise vlib.Infra("actions never fired in the exhaustive run: %s" % dead)
+    _lap("exhaustive TLC")
     h = vlib.build_harness(["c04"])
     # ---- 2. spec -> impl
     g = vlib.tlc("CodecGen", "CodecGen_quick.cfg", timeout=1200, heap="8g")
@@ -160,7 +169,9 @@ def run(tier, v):
     cases += vlib.mbt_lines(g2["out"])
     if nbfs < 1000 or len(cases) - nbfs < 100:
         raise vlib.Infra("MBT export produced only %d + %d cases" % (nbfs, len(cases) - nbfs))
+    _lap("MBT export")
     m, mism = _mbt(v, h, cases, cov)
+    _lap("MBT replay")
     cov["mbt_cases_exhaustive"] = nbfs
     cov["mbt_cases_simulated"] = len(cases) - nbfs
     cov["mbt_cases_replayed"] = m["replayed"]
@@ -170,25 +181,26 @@ def run(tier, v):
     cov["samples"].append({"mbt_case": cases[nbfs + (len(cases) - nbfs) // 2]})
     # ---- 3. impl -> spec, call level
     out = os.path.join(vlib.scratch(), "c04tv")
-    s = vlib.run_driver(h, "c04_tv", out, {"shards": 16, "random": 2000 if quick else 40000})
+    s = vlib.run_driver(h, "c04_tv", out, {"shards": 16, "random": 1500 if quick else 40000})
     files = [os.path.join(out, "trace-%02d.ndjson" % i) for i in range(s["shards"])]
     res = vlib.validate_traces("CodecTrace", "CodecTrace.cfg", files, timeout=3000)
+    _lap("call-level trace validation")
     cov["tv_runs"], cov["tv_events"] = s["runs"], s["events"]
     cov["tv_breakdown"] = {k[2:]: val for k, val in s.items() if k.startswith("n_")}
     cov["tv_files_rejected"] = _judge(v, "tv", "Codec", files, res, cov)
     cov["tv_states"] = sum(x["distinct"] for x in res)
     ev0 = vlib.read_ndjson(files[3])
-    k = next(i for i, e in enumerate(ev0) if e.get("e") == "fill")
+    k = next((i for i, e in enumerate(ev0) if e.get("e") == "fill"), 0)
     cov["samples"].append({"recorded_calls": [_short(e, 40) for e in vlib.run_of(ev0, k)[:14]]})
 
     def corrupt_out(ev):
         ev = copy.deepcopy(ev)
-        e = next(e for e in ev if e.get("e") == "write" and len(e["out"]) > len(e["p"]))
-        e["out"][0] = (e["out"][0] + 1) % 256
+        e = next(e for e in ev if e.get("e") == "write" and len(e["out"]) > 0)
+        e["out"][-1] = (e["out"][-1] + 1) % 256
         return ev
 
     def drop_fill(ev):
-        k = next(i for i, e in enumerate(ev) if e.get("e") == "fill" and ev[i + 1].get("e") == "fill")
+        k = next(i for i, e in enumerate(ev) if e.get("e") == "fill" and ev[i + 1].get("e") in ("fill", "ret"))
         return ev[:k] + ev[k + 1:]
 
     def lose_leader(ev):   # a decoded byte too few: as if a pending leader had been dropped
@@ -196,15 +208,17 @@ def run(tier, v):
         e = next(e for e in ev if e.get("e") == "ret" and e.get("res") == "ok" and len(e["buf"]) > 0)
         e["buf"] = e["buf"][:-1]
         return ev
-    small = _truncate_runs(files[1], 400)
-    st = {"write_out_corrupted": vlib.selftest_reject("CodecTrace", "CodecTrace.cfg", small, corrupt_out),
-          "fill_dropped": vlib.selftest_reject("CodecTrace", "CodecTrace.cfg", small, drop_fill),
-          "ret_short": vlib.selftest_reject("CodecTrace", "CodecTrace.cfg", small, lose_leader)}
+    small = _truncate_runs(files[1], 600)
+    st = {"write_out_corrupted": _selftest("CodecTrace", "CodecTrace.cfg", small, corrupt_out),
+          "fill_dropped": _selftest("CodecTrace", "CodecTrace.cfg", small, drop_fill),
+          "ret_short": _selftest("CodecTrace", "CodecTrace.cfg", small, lose_leader)}
+    _lap("call-level self-tests")
     # ---- 4. impl -> spec, wire level
     wout = os.path.join(vlib.scratch(), "c04wire")
     w = vlib.run_driver(h, "c04_wire", wout, {"shards": 16, "uploads": 72 if quick else 720}, timeout=1500)
     wfiles = _nonempty([os.path.join(wout, "wire-%02d.ndjson" % i) for i in range(w["shards"])])
     wres = vlib.validate_traces("CodecObs", "CodecObs.cfg", wfiles, timeout=3000, heap="3g")
+    _lap("wire-level trace validation")
     cov["wire_uploads"], cov["wire_events"] = w["runs"], w["events"]
     cov["wire_uploads_ok"] = w.get("uploads_ok", 0)
     cov["wire_uploads_failed"] = w.get("uploads_failed", 0)
@@ -213,6 +227,8 @@ def run(tier, v):
     cov["wire_files_rejected"] = _judge(v, "wire", "CodecObs", wfiles, wres, cov)
     cfgs = json.load(open(os.path.join(wout, "wire-cfgs.json")))
     cov["wire_matrix"] = sorted({"%s/comp=%s/proto=%d" % ("-b -e" if c["escape"] else "-b", c["comp"], c["proto"]) for c in cfgs})
+    if not wfiles:
+        raise vlib.Infra("no wire-level trace recorded")
     we = vlib.read_ndjson(wfiles[0])
     cov["samples"].append({"recorded_upload": [_short(e, 48) for e in we[:9]]})
 
@@ -232,7 +248,7 @@ def run(tier, v):
                 k = next((j for j in range(i, len(ev)) if is_data_cw(ev[j]) or ev[j].get("e") == "reset"), None)
                 if k is not None and ev[k].get("e") == "cw":
                     return ev[:k] + ev[k + 1:]
-        raise vlib.Infra("self-test: no uncompressed upload in the sample trace")
+        raise StopIteration
 
     def wrong_file(ev):
         ev = copy.deepcopy(ev)
@@ -240,16 +256,26 @@ def run(tier, v):
         e["bytes"][0] ^= 1
         return ev
     wsample = next((f for f in wfiles if any(e.get("e") == "src" and e.get("comp") == "no" for e in vlib.read_ndjson(f))), wfiles[0])
-    st["wire_tilde_injected"] = vlib.selftest_reject("CodecObs", "CodecObs.cfg", wsample, tilde_on_wire, heap="3g")
-    st["wire_frame_dropped"] = vlib.selftest_reject("CodecObs", "CodecObs.cfg", wsample, drop_frame, heap="3g")
-    st["wire_saved_file_differs"] = vlib.selftest_reject("CodecObs", "CodecObs.cfg", wsample, wrong_file, heap="3g")
+    st["wire_tilde_injected"] = _selftest("CodecObs", "CodecObs.cfg", wsample, tilde_on_wire, heap="3g")
+    st["wire_frame_dropped"] = _selftest("CodecObs", "CodecObs.cfg", wsample, drop_frame, heap="3g")
+    st["wire_saved_file_differs"] = _selftest("CodecObs", "CodecObs.cfg", wsample, wrong_file, heap="3g")
+    _lap("wire-level self-tests")
     cov["selftest_rejected"] = st
-    if not all(st.values()):
-        raise vlib.Infra("binding self-test failed: a corrupted trace was accepted: %s" % st)
+    if any(x is False for x in st.values()) or (not v.violations and not v.known_hit and not all(st.values())):
+        raise vlib.Infra("binding self-test failed: a corrupted trace was accepted / not applicable: %s" % st)
     if w.get("uploads_failed", 0) and not cov["wire_files_rejected"]:
         raise vlib.Infra("an upload failed but no trace was rejected: " + str(w.get("last_failure")))
     cov["traces_validated_against_impl"] = s["runs"] + w["runs"] + m["replayed"]
     return cov
+
+
+def _selftest(module, cfg, path, mutate, **kw):
+    """True = corrupted trace rejected, False = accepted, None = the recorded trace has no event of
+    the kind the corruption needs (happens only when the real code already misbehaves)."""
+    try:
+        return vlib.selftest_reject(module, cfg, path, mutate, **kw)
+    except (StopIteration, IndexError):
+        return None
 
 
 def _truncate_runs(path, nlines):
